@@ -95,6 +95,7 @@ for name, (en, dis) in {
     P.append((name, fs))
     FEATURES[name] = (en, dis)
 P.append(("webhooksec", open(os.path.join(os.path.dirname(os.path.abspath(__file__)), "spec_webhook_security.yml")).read()))
+P.append(("formnoprops", open(os.path.join(os.path.dirname(os.path.abspath(__file__)), "spec_form_no_props.yml")).read()))
 P.append(("enumconst", open(os.path.join(os.path.dirname(os.path.abspath(__file__)), "spec_enum_const_collision.yml")).read()))
 P.append(("patdefdup", open(os.path.join(os.path.dirname(os.path.abspath(__file__)), "spec_pattern_default_dup.yml")).read()))
 print(json.dumps({"packages": [dict({"name": n, "spec": s}, **({"enable": FEATURES[n][0], "disable": FEATURES[n][1]} if n in FEATURES else {})) for n, s in P], "cases": {"quick": [], "thorough": []},
